@@ -171,7 +171,7 @@ typedef struct {
   volatile int cmd_idx;
   volatile int at_gate;      // stage number the backup thread is parked at (sched mode)
   sem_t gate_go;
-  volatile int in_bkp, last_stage;
+  volatile int in_bkp, last_stage, bkp_no;
 } Thr;
 
 static IWKV g_kv;
@@ -287,8 +287,9 @@ static void stage_point(int stage) {
   if (!t || !t->in_bkp || stage == t->last_stage) return;
   t->last_stage = stage;
   if (stage == 5) {   // exclusive lock held by this thread: the instant the image is meant to capture
-    int n = atomic_fetch_add(&g_nsnap, 1);
-    if (n < 8) g_snap[n] = dump_store_nolock(g_kv);
+    int n = t->bkp_no;
+    atomic_fetch_add(&g_nsnap, 1);
+    if (n >= 0 && n < 8 && !g_snap[n]) g_snap[n] = dump_store_nolock(g_kv);
   }
   if (g_sched) {
     t->at_gate = stage;
@@ -462,7 +463,7 @@ static void exec_op(Thr *t, int idx) {
   } else if (!strcmp(k0, "bkp") && n >= 2) {
     char p[600]; snprintf(p, sizeof p, "%s.bkp%d", g_path, atoi(w[1]));
     uint64_t ts = 0;
-    t->in_bkp = 1; t->last_stage = -1;
+    t->in_bkp = 1; t->last_stage = -1; t->bkp_no = atoi(w[1]);
     rc = iwkv_online_backup(g_kv, &ts, p);
     t->in_bkp = 0;
     if (g_sched && !rc) {
@@ -560,7 +561,7 @@ static iwrc hook_onresize(struct iwdlsnr *self, off_t osize, off_t nsize, int fl
   if (!rc && *handled && nsize > osize && g_kv && (struct iwdlsnr*) g_kv->dlsnr == self) {
     long long fs = hxs_exf_fsize(hxs_fsm_pool(&g_kv->fsm));
     if (fs != (long long) nsize) {
-      printf("f25 resize-acknowledged-not-performed stage=%d\n", hxs_wal_stage(g_kv));
+      printf("f25 resize-acknowledged-not-performed stage-now=%d\n", hxs_wal_stage(g_kv));
       fflush(stdout);
       _exit(4);
     }
@@ -659,6 +660,12 @@ int main(int argc, char **argv) {
       fprintf(stderr, "CASE %s\n", n > 1 ? w[1] : "?");
       printf("case %s\n", n > 1 ? w[1] : "?");
       atomic_store(&g_clock, 1);
+      for (int i = 0; i < 8; ++i) {      // images of earlier cases must not be mistaken for this case's
+        char f[700];
+        snprintf(f, sizeof f, "%s.bkp%d", g_path, i); unlink(f);
+        snprintf(f, sizeof f, "%s.bkp%d.open", g_path, i); unlink(f);
+        snprintf(f, sizeof f, "%s.bkp%d.open-wal", g_path, i); unlink(f);
+      }
       g_recording = 1;
       iwrc rc = open_store(g_path, g_wal, 1, cpbuf, &g_kv);
       if (rc) { printf("open-failed %" PRIu64 "\n", (uint64_t) rc); return 2; }
@@ -700,7 +707,7 @@ int main(int argc, char **argv) {
         for (int i = 0; i < g_nth; ++i) pthread_join(g_thr[i].th, 0);
         for (int i = 0; i < g_nth; ++i) for (int c = 0; c < NCUR; ++c) if (g_thr[i].cur[c]) iwkv_cursor_close(&g_thr[i].cur[c]);
       }
-      for (int i = 0; i < atomic_load(&g_nsnap) && i < 8; ++i) printf("snap %d %s\n", i, g_snap[i]);
+      for (int i = 0; i < 8; ++i) if (g_snap[i]) printf("snap %d %s\n", i, g_snap[i]);
       guard_on();
       char *d = dump_store_api(g_kv);
       guard_off();
